@@ -56,7 +56,7 @@ func init() {
 // deepDepths: ascending; the in-process workloads stop at 10^4.
 var deepDepths = []int{1000, 10000, 100000, 300000, 1 << 20, 1 << 21, 3 << 20}
 
-var deepDepthsQuick = []int{1000, 10000, 100000, 1 << 20, 3 << 20}
+var deepDepthsQuick = []int{1000, 100000, 1 << 20, 3 << 20}
 
 func deepDepthsFor(tier string) []int {
 	if tier == "thorough" {
@@ -144,7 +144,7 @@ func loaderRoute(name string, f func([]byte, ...ucfg.Option) (*ucfg.Config, erro
 			out = mm
 		}
 		_ = out
-		if len(s) <= 100000 {
+		if len(s) <= 12000 {
 			// builds every path by concatenation: quadratic in the depth by
 			// nature, left to the in-process workloads beyond this size
 			c.FlattenedKeys(opts...)
@@ -203,14 +203,28 @@ var deepRoutes = []deepRoute{
 	parseRoute("parse.ValueWithConfig(Array only)", parse.Config{Array: true}),
 }
 
-// deepShapesFor: quick = every shape through parse.Value, four through the
-// plain loaders, two through every other route; thorough = everything.
+// deepShapesFor: thorough = every shape through every route; quick = four
+// shapes through parse.Value and hjson.NewConfig, two through the other
+// plain loaders and the flag / environment / resolver routes, one through the
+// remaining variants.
 func deepShapesFor(tier string, rt deepRoute) []int {
+	want := map[string]bool{}
+	switch {
+	case tier == "thorough":
+	case rt.name == "parse.Value":
+		want = map[string]bool{"open-lists": true, "closed-lists": true, "open-objects": true, "closed-mixed-spaced": true}
+	case rt.name == "hjson.NewConfig":
+		want = map[string]bool{"open-lists": true, "closed-lists": true, "closed-objects": true, "closed-lists-then-reference": true}
+	case strings.HasPrefix(rt.name, "parse.ValueWithConfig"):
+		want = map[string]bool{"open-lists": true}
+	case strings.HasSuffix(rt.name, "(PathSep,VarExp)"):
+		want = map[string]bool{"closed-objects": true}
+	default:
+		want = map[string]bool{"open-lists": true, "closed-objects": true}
+	}
 	var out []int
-	full := tier == "thorough" || rt.name == "parse.Value"
-	loader := rt.name == "yaml.NewConfig" || rt.name == "json.NewConfig" || rt.name == "hjson.NewConfig"
 	for si, sh := range rt.shapes {
-		if full || sh.name == "open-lists" || sh.name == "closed-objects" || (loader && (sh.name == "closed-lists" || sh.name == "closed-lists-then-reference")) {
+		if tier == "thorough" || want[sh.name] {
 			out = append(out, si)
 		}
 	}
@@ -409,9 +423,33 @@ func recursionOwner(trace string) (pkg string, fns []string) {
 	return pkg, fns
 }
 
-// runDeep: one case per route (a runaway recursion of one route shows up as
-// one violating case), one probe process per shape.
+// deepCases: quick = one case per route (a runaway recursion of one route
+// shows up as one violating case; a few probe processes each); thorough = one
+// case per (route, shape), a case stays far below the stall allowance.
+func deepCases(tier string) int {
+	if tier != "thorough" {
+		return len(deepRoutes)
+	}
+	n := 0
+	for _, rt := range deepRoutes {
+		n += len(rt.shapes)
+	}
+	return n
+}
+
 func runDeep(m *mon, r *rand.Rand, seed int64, tier string, k int) {
+	if tier == "thorough" {
+		for ri, rt := range deepRoutes {
+			if k < len(rt.shapes) {
+				m.res.SetAdd("entry_point", rt.name)
+				m.res.SetAdd("h_route", rt.name)
+				runDeepShape(m, ri, k, deepDepthsFor(tier))
+				return
+			}
+			k -= len(rt.shapes)
+		}
+		return
+	}
 	rt := deepRoutes[k]
 	m.res.SetAdd("entry_point", rt.name)
 	m.res.SetAdd("h_route", rt.name)
